@@ -133,6 +133,9 @@ type ParserInput struct {
 	EP    string `json:"ep"`
 	Input []byte `json:"input"`
 	Src   string `json:"src"` // valid | mutated | raw | big
+	// Between is fed to the same entry point between the two calls on Input:
+	// the second answer must not depend on what was parsed in between.
+	Between [][]byte `json:"between,omitempty"`
 }
 
 func callGuarded(ep string, in []byte) (res callResult, err error) {
@@ -160,12 +163,17 @@ func checkParserInput(c ParserInput, r *Recorder) error {
 	if r1.ValWithE != "" {
 		return errf("%s (input %q)", r1.ValWithE, clip(c.Input))
 	}
+	for _, b := range c.Between {
+		if _, err := callGuarded(c.EP, b); err != nil {
+			return errf("%v (input %q)", err, clip(b))
+		}
+	}
 	r2, err := callGuarded(c.EP, c.Input)
 	if err != nil {
 		return errf("second call: %v (input %q)", err, clip(c.Input))
 	}
 	if r1.Err != r2.Err || !reflect.DeepEqual(r1.Val, r2.Val) {
-		return errf("%s is not deterministic on %q: %+v / err=%v vs %+v / err=%v", c.EP, clip(c.Input), r1.Val, r1.Err, r2.Val, r2.Err)
+		return errf("%s is not deterministic on %q (with %d other inputs parsed in between): %+v / err=%v vs %+v / err=%v", c.EP, clip(c.Input), len(c.Between), r1.Val, r1.Err, r2.Val, r2.Err)
 	}
 	return nil
 }
@@ -256,14 +264,24 @@ func genParserInput(t *rapid.T, ep string) ParserInput {
 
 var specC18Total = Register(&Spec[ParserInput]{
 	Prop: "C18", Name: "total",
-	Rule: "for each of 13 parser entry points (version.Parse; dependency.Parse / ParseArch / ParseArchitectures; ParagraphReader.All; ParseDsc, ParseChanges, ParseControl, ParseBinaryIndex, ParseSourceIndex, Unmarshal(&deb.Control); changelog.Parse / ParseOne) inputs from that parser's own grammar generator (4/20), line- and byte-level mutations and truncations of them (14/20), raw bytes (1/20) and a valid input repeated up to 64 KiB (1/20). Oracle: the call returns within 60 s without panicking; when it returns an error no pointer/slice/map result is non-nil and non-empty; a second call gives a deeply equal value and the same error-ness. Non-trivial: grammar-derived input (valid, mutated or big); distinct by (entry point, bytes).",
+	Rule: "for each of 13 parser entry points (version.Parse; dependency.Parse / ParseArch / ParseArchitectures; ParagraphReader.All; ParseDsc, ParseChanges, ParseControl, ParseBinaryIndex, ParseSourceIndex, Unmarshal(&deb.Control); changelog.Parse / ParseOne) inputs from that parser's own grammar generator (4/20), line- and byte-level mutations and truncations of them (14/20), raw bytes (1/20) and a valid input repeated up to 64 KiB (1/20). Oracle: the call returns within 60 s without panicking; when it returns an error no pointer/slice/map result is non-nil and non-empty; a second call - made after 0..2 other generated inputs (often failing ones) went through the same entry point - gives a deeply equal value and the same error-ness. Non-trivial: grammar-derived input (valid, mutated or big); distinct by (entry point, bytes).",
 	Check: checkParserInput,
 })
 
 func TestC18_Total(t *testing.T) {
 	specC18Total.Run(t, func(t *rapid.T) ParserInput {
-		return genParserInput(t, rapid.SampledFrom(entryPointNames).Draw(t, "ep"))
-	}, 40000, 400000)
+		ep := rapid.SampledFrom(entryPointNames).Draw(t, "ep")
+		in := genParserInput(t, ep)
+		if in.Src != "big" {
+			for i := rapid.IntRange(0, 2).Draw(t, "nbetween"); i > 0; i-- {
+				b := genParserInput(t, ep)
+				if b.Src != "big" {
+					in.Between = append(in.Between, b.Input)
+				}
+			}
+		}
+		return in
+	}, 30000, 300000)
 }
 
 // ------------------------------------------------------------------ concurrency
